@@ -82,6 +82,83 @@ theorem deltaEqG_iff {F : Type} [Field F] [LinearOrder F] [IsStrictOrderedRing F
   · simp only [h, if_false, decide_eq_true_eq]
     rw [abs_of_nonneg (by linarith)]
 
+/-! ### ChangeOf: re-initialisation, several conditions -/
+
+section reinit
+variable {V : Type} (eqv : V → V → Bool)
+
+theorem changeOfRunR_append_init (slot : Option (Option V)) (pre post : List (Option V)) :
+    changeOfRunR eqv slot (pre ++ none :: post) =
+      changeOfRunR eqv slot pre ++ changeOfRunR eqv (some none) post := by
+  induction pre generalizing slot with
+  | nil => cases slot <;> simp [changeOfRunR]
+  | cons e es ih =>
+    cases e with
+    | none => cases slot <;> simp [changeOfRunR, ih]
+    | some v => cases slot <;> simp [changeOfRunR, ih]
+
+theorem changeOfRunR_evals (p : Option V) (vs : List V) :
+    changeOfRunR eqv (some p) (vs.map some) = (changeOfRun eqv p vs).map some := by
+  induction vs generalizing p with
+  | nil => simp [changeOfRunR, changeOfRun]
+  | cons v vs ih => simp [changeOfRunR, changeOfRun, ih]
+
+end reinit
+
+theorem upd_same {α : Type} (f : Nat → α) (k : Nat) (a : α) : upd f k a k = a := by simp [upd]
+theorem upd_other {α : Type} (f : Nat → α) (k j : Nat) (a : α) (h : j ≠ k) : upd f k a j = f j := by
+  simp [upd, h]
+
+theorem runFlat_independent (condOf : Nat → CondSpec) (c : Nat) (evs : List Ev) (vals : Nat → Nat) (f : Frame)
+    (hk : ∀ c' ∈ condsIn evs, (condOf c').key = (condOf c).key → c' = c) :
+    (runFlat condOf { vals := vals, stack := [f] } evs).filterMap
+        (fun o => if o.1 = c then some o.2 else none) =
+      changeOfRunR (condOf c).eqv (f (condOf c).key) (histOf condOf c vals evs) := by
+  induction evs generalizing vals f with
+  | nil => cases h : f (condOf c).key <;> simp [runFlat, histOf, changeOfRunR]
+  | cons e es ih =>
+    cases e with
+    | set l v =>
+      simp only [runFlat, evStep, histOf]
+      exact ih _ _ (fun c' hc' => hk c' (by simpa [condsIn] using hc'))
+    | init c' =>
+      have hk' : ∀ c'' ∈ condsIn es, (condOf c'').key = (condOf c).key → c'' = c :=
+        fun c'' h => hk c'' (by simp [condsIn, h])
+      simp only [runFlat, evStep, histOf, initSlot]
+      by_cases hc : c' = c
+      · subst hc
+        simp only [if_true]
+        rw [ih _ _ hk', upd_same]
+        cases f (condOf c').key <;> simp [changeOfRunR]
+      · simp only [hc, if_false]
+        have hne : (condOf c).key ≠ (condOf c').key := fun h => hc (hk c' (by simp [condsIn]) h.symm)
+        rw [ih _ _ hk', upd_other _ _ _ _ hne]
+    | eval c' =>
+      have hk' : ∀ c'' ∈ condsIn es, (condOf c'').key = (condOf c).key → c'' = c :=
+        fun c'' h => hk c'' (by simp [condsIn, h])
+      simp only [runFlat, evStep, histOf, findSlot]
+      cases hs : f (condOf c').key with
+      | none =>
+        simp only [List.filterMap_cons]
+        by_cases hc : c' = c
+        · subst hc
+          simp only [if_true]
+          rw [ih _ _ hk', hs]
+          simp [changeOfRunR]
+        · simp only [hc, if_false]
+          exact ih _ _ hk'
+      | some prev =>
+        simp only [writeSlot, hs, List.filterMap_cons]
+        by_cases hc : c' = c
+        · subst hc
+          simp only [if_true]
+          rw [ih _ _ hk', upd_same, hs]
+          simp [changeOfRunR]
+        · simp only [hc, if_false]
+          have hne : (condOf c).key ≠ (condOf c').key := fun h => hc (hk c' (by simp [condsIn]) h.symm)
+          rw [ih _ _ hk', upd_other _ _ _ _ hne]
+
+
 /-! ### And / Or / Not -/
 
 /-- Boolean values of a list of operands (specification side). -/
